@@ -269,6 +269,12 @@ struct C19 : Scenario {
 			}
 			if (sum_orig + orig >= (1ULL << 32)) orig = rng.below(1000);
 			size_t dl = m.kind == 'f' ? rng.below(24) : 0;
+			// packed/original exactly half-way between two printed values (xx.x5 %), and just beside it
+			if (m.kind == 'f' && rng.chance(1, 10)) {
+				uint64_t unit = 1 + rng.below(5);
+				uint64_t o2 = 2000 * unit;
+				if (sum_orig + o2 < (1ULL << 32)) { orig = o2; dl = (size_t) (unit * (2 * rng.below(12) + 1)) + (rng.chance(1, 3) ? 1 : 0); if (dl > 200) dl = 200; }
+			}
 			m.data.resize(dl);
 			for (auto &b : m.data) b = rng.byte();
 			m.plain.clear();
@@ -330,6 +336,19 @@ struct C19 : Scenario {
 				mt = ((mt + tzoff) & ~1LL) - tzoff;
 			}
 			m.gmtime = mt;
+			if (rng.chance(1, 12) && p.gets("longname") != "1") {
+				// a name without a lower-case letter: members of the MS-DOS family of OS types (and level-0 members without a
+				// Unix area, which have no OS type at all) are shown in lower case - path and name, not a link's target
+				auto up = [](std::string s) { for (auto &ch : s) ch = (char) toupper((unsigned char) ch); return s; };
+				auto low = [](std::string s) { for (auto &ch : s) ch = (char) tolower((unsigned char) ch); return s; };
+				path = up(path); name = up(name);
+				if (rng.chance(1, 2)) target = up(target);
+				bool family = m.level == 0 ? perms < 0 : (m.os == 0 || m.os == 'M' || m.os == 'a' || m.os == '2' || m.os == ' ');
+				m.gpath = family ? low(path) : path;
+				m.gname = family ? low(name) : name;
+				m.gtarget = target;
+				p.sets("allcaps", "1");
+			}
 			encode_names(m, path, m.kind == 'l' ? name + "|" + target : name);
 			encode_unix_meta(m, perms, uid, gid, mt, tzoff, false);
 			if (m.level == 0 && perms >= 0 && mt == 0) m.time = 0;
@@ -477,6 +496,7 @@ struct C19 : Scenario {
 		count("kind.src." + (p.argv.size() > 2 && p.argv[2] == "-" ? "stdin_" + p.gets("srckind") : p.gets("srckind", "FILE_SEEK")));
 		if (p.argv.size() == 2) count("kind.one_argument_form");
 		if (p.gets("dupnames") == "1") count("kind.duplicate_names_with_name_arguments");
+		if (p.gets("allcaps") == "1") count("kind.name_without_lower_case_letter");
 		count("probe.clock_reads", g_sim.clock_reads);
 		count("probe.rows", rows);
 		res.trace = finish_trace();
